@@ -14,7 +14,7 @@ EXPLANATION = (
     "unqualified Identifier node through node_location, and offsets cross position_to_utf8 / utf8_range_to_position with "
     "the text of the same locator (units rule). Correctness for every cursor position and inverse-ness as a relation are "
     "not decided.")
-EXPLANATION += ' Further clauses: (R3) the handlers answer from trees of the current texts (shared C15.R1-R4, R6); (U) the units rules over the conversion functions and the handlers. (R4) REFS-WHOLE - the references handler removes nothing from the collected locations. R1 also requires External equality to pair each field of self with the same field of other; (R5) CURSOR - the cursor test is half-open. (R6) FOLDERS - the folders that answer a request are selected by Folder::contains alone; (R7) LOADER-TEXT (shared C11.R1).'
+EXPLANATION += ' Further clauses: (R3) the handlers answer from trees of the current texts (shared C15.R1-R4, R6); (U) the units rules over the conversion functions and the handlers. (R4) REFS-WHOLE - the references handler removes nothing from the collected locations. R1 also requires External equality to pair each field of self with the same field of other; (R5) CURSOR - the cursor test is half-open. (R6) FOLDERS - the folders that answer a request are selected by Folder::contains alone; (R7) LOADER-TEXT (shared C11.R1). (R8) CURSOR-ON-IDENTIFIER - every handler resolves the position to an Identifier leaf. R6 also requires every matching folder to answer.'
 TECHNIQUE = "static analysis: resolved-callee identity + provenance (def-use) rules on the LSP handlers"
 
 
@@ -334,6 +334,60 @@ def r5_cursor_half_open(c, facts, rule='C17.R5'):
         c.ok(R, {'syntax_at': 'half-open test', 'tests': [k for k, _ in tests]})
 
 
+def r9_ident_identity(c, facts, rule='C17.R9'):
+    """Identifier equality is equality of the *text* (parser.rs): in the handlers two identifier nodes are the same only
+    when they are the same node - `user.user` has two different identifiers with one spelling"""
+    R = c.rule(rule, 'IDENT-IDENTITY: the handlers never decide which identifier the cursor is on by comparing identifier texts')
+    BY_NAME = {'rename_qualifier': 'a qualifier is a name of the module: its uses are the variables qualified with that name'}
+    n = 0
+    seen = 0
+    for g in sorted(facts.fns.values(), key=lambda f: f.qname):
+        if not g.mir or not g.qname.startswith('oal_client::lsp::handlers::'):
+            continue
+        n += 1
+        home = facts.home(g).qname.split('::{closure')[0].split('::')[-1]
+        for b, t in g.calls():
+            info = callee_of(t)
+            if not info or not info['def'].endswith(('PartialEq::eq', 'PartialEq::ne')) or not any('parser::Identifier' in a.get('ty', '') for a in t['args']):
+                continue
+            seen += 1
+            inst = {'fn': g.qname, 'compares': 'Identifier by text'}
+            if home in BY_NAME:
+                inst['by design'] = BY_NAME[home]
+                c.ok(R, inst)
+            else:
+                c.bad(R, '%s:identifiers-compared-by-text' % home, '%s compares two identifiers with Identifier::eq, which compares their texts: in `user.user` the qualifier and the name are taken for one another' % g.qname, **inst)
+    c.floor(R, 'handler functions examined', n, 8)
+    if not seen:
+        c.ok(R, {'handlers': 'no identifier comparison'})
+
+
+def r8_cursor_on_identifier(c, facts, rule='C17.R8'):
+    """a request answers only when the cursor is on an identifier: every handler looks the position up among the
+    Identifier leaves (and goes from there to the enclosing construct) - looking it up among wider nodes answers for the
+    blanks, the full stop and the comments inside them too"""
+    R = c.rule(rule, 'CURSOR-ON-IDENTIFIER: every handler resolves the cursor position to an Identifier leaf')
+    sa = c.anchor(R, 'oal_client::lsp::handlers::syntax_at')
+    n = 0
+    for g in sorted(facts.fns.values(), key=lambda f: f.qname):
+        if not g.mir or not g.qname.startswith('oal_client::lsp::handlers::'):
+            continue
+        for b, t in g.calls():
+            info = callee_of(t)
+            if not info or info.get('id') != sa.id:
+                continue
+            n += 1
+            node = (info.get('gargs') or ['?'])[-1]
+            kind = node.split('<')[0].split('::')[-1]
+            home = facts.home(g).qname.split('::')[-1].split('{')[0]
+            inst = {'fn': g.qname, 'looks up': kind}
+            if kind == 'Identifier':
+                c.ok(R, inst)
+            else:
+                c.bad(R, '%s:cursor-resolved-to:%s' % (home, kind), '%s answers for every position inside a %s node - also the blanks, the punctuation and the comments between its tokens, which are not identifiers' % (g.qname, kind), **inst)
+    c.floor(R, 'cursor look-ups in the handlers', n, 3)
+
+
 def r6_folders(c, facts, rule='C17.R6'):
     """a request about a document is answered from every workspace folder whose program contains that document - wherever
     the file lies on disk (a module imported from outside the folder root is part of the program), and from all of them
@@ -378,6 +432,8 @@ def r6_folders(c, facts, rule='C17.R6'):
 
 
 def run(c, facts):
+    c.run(r9_ident_identity, facts)
+    c.run(r8_cursor_on_identifier, facts)
     c.run(r6_folders, facts)
     import c11 as _c11
     R7 = c.rule('C17.R7', 'LOADER-TEXT: the spans of definitions and references index the text the server converts them with: the text reaches the lexer unchanged (shared with C11.R1)')
